@@ -13,9 +13,11 @@ Step(e) ==
       [] e.op = "Decrypt"          -> e.i \in DOMAIN store /\ Decrypt(e.key, e.i)
       [] e.op = "DecryptBad"       -> DecryptBad(e.key, e.sv)
       [] e.op = "DecryptTruncated" -> e.i \in DOMAIN store /\ DecryptTruncated(e.i)
+      [] e.op = "DecryptExtended" -> e.i \in DOMAIN store /\ DecryptExtended(e.i, e.n)
       [] e.op = "LoadStored"       -> LoadStored(e.shape, e.fm)
       [] e.op = "EncryptPair"      -> EncryptPair(e.key, e.m, e.pt, e.nested)
       [] e.op = "Swap"             -> Swap
+      [] e.op = "FailedOpen"       -> FailedOpen(e.key)
       [] e.op = "Assign"           -> Assign(e.alg, e.p)
       [] e.op = "BuildDefault"     -> BuildDefault(e.alg, e.p)
       [] e.op = "LoadPlain"        -> LoadPlain(e.alg, e.p)
